@@ -5,6 +5,7 @@ package redis
 //vf:job C10 quick VF_C10_RoundTrip shape=0..17 nl=0..1
 //vf:job C10 thorough VF_C10_RoundTrip shape=0..17 nl=2
 //vf:job C10 quick VF_C10_IntRoundTrip r=0..5
+//vf:job C10 quick VF_C10_Retained shape=0..8
 //vf:job C10 quick VF_C10_Inline words=1..3 nl=0..1
 //vf:job C10 quick VF_C10_BadCR shape=0..7
 //vf:job C10 quick VF_C10_BadLF shape=0..7
@@ -19,6 +20,7 @@ package redis
 import (
 	"bufio"
 	"bytes"
+	"io"
 )
 
 func vfText(tag string, n int) []byte {
@@ -165,6 +167,67 @@ func VF_C10_RoundTrip() {
 	i4, ok4 := r4.(*Int)
 	vfAssert(err4 == nil && ok4 && i4.Value == 7, "Decode left the rest of the stream disturbed")
 	vfAssertTwin(off1 != int64(nl+len(enc)), "twin")
+}
+
+// vfChunkReader hands out the stream in the given chunks (network reads)
+type vfChunkReader struct {
+	chunks [][]byte
+	next   int
+}
+
+func (c *vfChunkReader) Read(p []byte) (int, error) {
+	if c.next >= len(c.chunks) {
+		return 0, io.EOF
+	}
+	n := copy(p, c.chunks[c.next])
+	if n < len(c.chunks[c.next]) {
+		c.chunks[c.next] = c.chunks[c.next][n:]
+	} else {
+		c.next++
+	}
+	return n, nil
+}
+
+// a decoded value stays the same value while the stream is read further (second value arrives in a
+// later network read through a small buffer, so the reader's buffer is refilled and reused)
+func VF_C10_Retained() {
+	var v Resp
+	switch vfParam("shape", 0) {
+	case 0:
+		v = &String{vfText("s", 2)}
+	case 1:
+		v = &Error{vfText("e", 3)}
+	case 2:
+		v = &BulkBytes{vfBytes("b", 3)}
+	case 3:
+		v = &Array{[]Resp{&String{vfText("s", 1)}, &BulkBytes{vfBytes("b", 2)}}}
+	case 4:
+		v = &Array{[]Resp{&Error{vfText("e", 2)}, &Int{vfSmallInt("i")}}}
+	case 5:
+		v = &Int{vfSmallInt("i")}
+	case 6:
+		v = &Array{[]Resp{&BulkBytes{vfBytes("b", 1)}, &String{vfText("s", 2)}, &BulkBytes{vfBytes("c", 1)}}}
+	case 7:
+		v = &BulkBytes{[]byte{}}
+	case 8:
+		v = &Array{[]Resp{&Array{[]Resp{&String{vfText("s", 2)}}}}}
+	}
+	enc, err := EncodeToBytes(v)
+	vfAssert(err == nil, "encode failed")
+	second := &BulkBytes{vfBytes("z", 20)}
+	enc2, _ := EncodeToBytes(second)
+	rd := &vfChunkReader{chunks: [][]byte{enc, enc2[:9], enc2[9:]}}
+	d := NewDecoder(bufio.NewReaderSize(rd, 16))
+	r1, err1 := d.decodeResp(0)
+	vfAssert(err1 == nil, "decode failed")
+	if err1 != nil {
+		return
+	}
+	vfAssert(vfRespEqual(v, r1), "decoded value differs right after decoding")
+	r2, err2 := d.decodeResp(0)
+	vfAssert(err2 == nil && vfRespEqual(second, r2), "second value differs")
+	vfAssert(vfRespEqual(v, r1), "a decoded value changed when the stream was read further")
+	vfAssertTwin(err2 != nil, "twin")
 }
 
 var vfIntRanges = [][2]int64{{-1030, -1018}, {524280, 524295}, {-3, 3}}
